@@ -34,7 +34,7 @@ Definition corr_fuel : nat := 6.
 Inductive case10 :=
 (* derivative matcher vs regexp.MatchString on the AST regexp/syntax produced *)
 | KRegex (r : re) (s : string) (obs : bool)
-(* for a literal entry name, Go's parser yields the AST the theorems assume (hypothesis parse_lit) *)
+(* for every entry name, Go's parser yields for the quoted pattern the AST the theorems assume (hypothesis parse_quoted) *)
 | KImgAst (t : string) (r : option re)
 (* imagetag.Filter with the single field spec "image" on the document {image: <v>} *)
 | KImageVal (tab : ptab) (im : image) (doc : node) (cls : oclass) (after : node)
@@ -81,8 +81,8 @@ Definition agree10 (c : case10) : bool :=
   | KRegex r s obs => Bool.eqb (matches r s) obs
   | KImgAst t r =>
       match r with
-      | Some r' => if literal_text t then re_eqb (norm r') (norm (img_re t)) else true
-      | None => negb (literal_text t)
+      | Some r' => re_eqb (norm r') (norm (img_re t))
+      | None => false      (* a quoted name always compiles *)
       end
   | KImageVal tab im doc cls after =>
       agree_res node_eqb
